@@ -7,10 +7,19 @@ const modPath = process.argv[2];
 const { $S } = await import(path.join(path.dirname(modPath), 'S.mjs'));   // the very module instance the instrumented code uses
 const spec = JSON.parse(process.argv[3]);
 $S.setSymbolicTypedArrays(true);
-const { Hash256Writer } = await import(modPath);
+const { Hash256Writer, generateHashFromString, generateHashFromNumbers } = await import(modPath);
 $S.reset();
 let out;
 try {
+  if (spec.mode === 'hash32str' || spec.mode === 'hash32nums') {
+    const outs = [];
+    for (let r = 0; r < (spec.copies || 1); r++) {
+      if (spec.mode === 'hash32str') outs.push(generateHashFromString($S.symAscii(`s${r}_`, spec.n)));
+      else { const xs = []; for (let i = 0; i < spec.n; i++) xs.push($S.input(`s${r}_${i}`, -2147483648, 2147483647)); outs.push(generateHashFromNumbers(xs)); }
+    }
+    process.stdout.write(JSON.stringify({ ok: true, dag: $S.exportDag(outs.map((o) => (o instanceof $S.SymNum ? { idx: o.id } : { value: o }))) }));
+    process.exit(0);
+  }
   const w = new Hash256Writer();
   if (spec.mode === 'bytes') {
     const data = $S.symBytes('m', spec.n);
